@@ -97,7 +97,7 @@ func tlv(tag byte, parts ...[]byte) []byte {
 	return append(out, c...)
 }
 
-func oidContent(arcs []int) []byte {
+func c16_oidContent(arcs []int) []byte {
 	if len(arcs) < 2 {
 		return nil
 	}
@@ -190,7 +190,7 @@ func (s ecSpec) clone() ecSpec {
 func (s ecSpec) primeTLV() []byte { return tlv(s.primeTag, s.primeC) }
 
 func (s ecSpec) der() []byte {
-	fieldID := tlv(0x30, tlv(0x06, oidContent(s.field)), s.primeTLV())
+	fieldID := tlv(0x30, tlv(0x06, c16_oidContent(s.field)), s.primeTLV())
 	curve := [][]byte{tlv(0x04, s.a), tlv(0x04, s.b)}
 	if s.hasSeed {
 		curve = append(curve, tlv(0x03, []byte{s.seedPad}, s.seed))
@@ -366,7 +366,7 @@ func container(kind int, c c16Curve, params []byte) []byte {
 	pub := append(append([]byte{4}, c.fx...), c.fy...)
 	priv := make([]byte, c.flen)
 	priv[c.flen-1] = 1
-	algo := tlv(0x30, tlv(0x06, oidContent(oidECPublicKey)), params)
+	algo := tlv(0x30, tlv(0x06, c16_oidContent(oidECPublicKey)), params)
 	switch kind {
 	case kSPKI:
 		return tlv(0x30, algo, tlv(0x03, []byte{0}, pub))
